@@ -1,7 +1,7 @@
 (* C03, C04, C05, C06 — the emitted condition of every rule decides the rule's verdict in the specification
    (one theorem, instantiated per marker family below). Proof: Gen/GenProofs1.v. *)
 From GV Require Import Base.Bytes Base.Utf8 Base.StrOps Base.GoFloat GoLite.Syntax GoLite.Sem Gen.Decl Gen.Rules Gen.Spec Gen.GenProofs1.
-From GV Require Import Helpers.Alnum Helpers.AlnumProofs.
+From GV Require Import Helpers.Alnum Helpers.AlnumProofs Base.TrimSpec.
 
 Theorem rule_condition_exact : forall ipc tab r f t arg c cur v b,
   make_cond tab r f t arg = WithCond c -> get_field cur f = Some v -> has_type v t = true ->
@@ -38,6 +38,26 @@ Theorem C05_string : forall ipc tab a t s, enum_kind_of t = Some EString ->
 Proof. intros. unfold violated. rewrite H. reflexivity. Qed.
 
 Example C05_trim : enum_items (bs " admin , user,guest ") = [bs "admin"; bs "user"; bs "guest"].
+Proof. vm_compute. reflexivity. Qed.
+
+(* "items are trimmed of surrounding blanks": every item is a comma-separated piece of the list minus a run of blank runes
+   (unicode.IsSpace, as strings.TrimSpace removes them) at each end, and it neither starts nor ends with a blank rune *)
+Theorem C05_items_trimmed : forall a it, In it (enum_items a) ->
+  exists raw l r, In raw (split_on ","%byte a) /\ raw = l ++ it ++ r /\ blanks l /\ blanks r /\
+                  ~ starts_blank it /\ ~ ends_blank it.
+Proof.
+  intros a it H. unfold enum_items in H. apply in_map_iff in H. destruct H as (raw & E & Hin). subst it.
+  destruct (trim_space_spec raw) as (l & r & E & Bl & Br & N1 & N2). exists raw, l, r. repeat split; assumption.
+Qed.
+Print Assumptions C05_items_trimmed.
+
+Theorem C05_item_without_blanks_kept : forall s, ~ starts_blank s -> ~ ends_blank s -> trim_space s = s.
+Proof. exact trim_space_fix. Qed.
+
+(* U+00A0, U+3000 and the vertical tab next to a comma are blanks; a blank inside an item stays *)
+Example C05_trim_unicode :
+  enum_items (flat_map (fun n => match Byte.of_N n with Some b => [b] | None => [] end)
+                       [114; 101; 100; 44; 194; 160; 103; 32; 110; 227; 128; 128; 44; 98; 11]%N) = [bs "red"; bs "g n"; bs "b"].
 Proof. vm_compute. reflexivity. Qed.
 
 (* C06: alpha = only ASCII letters (empty allowed); numeric = one or more ASCII digits *)
